@@ -10,9 +10,12 @@ FFT64, NTT120 = 0, 1
 class Ctx:
     """one machine + the objects of one abstract call"""
 
-    def __init__(self, lib, cpu='accel', expand=False, trusted=None, loop_cap=1 << 22, values=False):
+    def __init__(self, lib, cpu='accel', expand=False, trusted=None, loop_cap=1 << 22, values=False, intervals=None):
         self.lib = lib
-        if values:
+        if intervals is not None:
+            from .imachine import IntervalMachine
+            self.m = IntervalMachine(lib, cpu=cpu, trusted=trusted, atom_range=intervals if callable(intervals) else None)
+        elif values:
             from .vmachine import ValueMachine
             self.m = ValueMachine(lib, cpu=cpu, trusted=trusted)
         else:
